@@ -49,6 +49,10 @@ func checkRT(ctx *pbt.Ctx, c RT) error {
 	}
 	// 1. layout, decided by the reference encoder (BIP text order: version then network)
 	want := ref.EncodeBIP276(ref.BIP276{Prefix: c.Prefix, Version: c.Version, Network: c.Network, Data: c.Data})
+	if text == "ERROR" && c.Prefix != bscript.PrefixScript && c.Prefix != bscript.PrefixTemplate {
+		ctx.Label("encoder refuses a non-standard prefix") // outside the quantified prefixes: nothing to judge
+		return nil
+	}
 	if text != want {
 		swapped := ref.EncodeBIP276(ref.BIP276{Prefix: c.Prefix, Version: c.Network, Network: c.Version, Data: c.Data})
 		if c.Version != c.Network && text == swapped && ctx.Known("L25b") {
